@@ -328,4 +328,51 @@ MUTANTS = [
             .process_extension_diseq(&extension)?
             .process_extension_fd(&extension)""",
       {"C22": "extension-hook"}),
+    M("c03-f2-returns", ["C03"], "src/lterm.rs",
+      "            LTermInner::Compound(compound) => LTerm::anyvars_compound(compound.as_ref()),\n",
+      "",
+      {"C03": "anyvars|variant=Compound"}),
+    M("c03-f3-returns", ["C03"], "src/state/reification.rs",
+      """            (LTermInner::<U, E>::Compound(compound), _) => {
+                // Label the fields of a compound term like the elements of a list.
+                let mut fields: Vec<LTerm<U, E>> = vec![];
+                compound_terms(compound.as_ref(), &mut fields);
+                let g: Goal<U, E> = Conj::from_iter(fields.into_iter().map(|field| force_ans(field)));
+                g.solve(solver, state)
+            },
+""",
+      "",
+      {"C03": "force_ans|variant=Compound"}, more=[("src/state/reification.rs", "#[cfg(feature = \"clpfd\")]\nuse crate::operator::conj::Conj;\n", "")]),
+    M("c03-reify-on-unwalked", ["C03"], "src/state/reification.rs",
+      "            let r = smap.reify(&v);",
+      "            let r = smap.reify(&x);",
+      {"C03": "reify-goal"}),
+    M("c03-results-reversed", ["C03"], "src/query.rs",
+      "                    .variables\n                    .iter()\n                    .map(|v| {",
+      "                    .variables\n                    .iter()\n                    .rev()\n                    .map(|v| {",
+      {"C03": "result-iterator"}),
+    M("c03-results-walk-once", ["C03"], "src/query.rs",
+      "LResult::<U, E>(state.smap_ref().walk_star(v), Rc::clone(&reified_cstore))",
+      "LResult::<U, E>(state.smap_ref().walk(v).clone(), Rc::clone(&reified_cstore))",
+      {"C03": "result-iterator"}),
+    M("c03-walkstar-skips-tail", ["C03"], "src/state/substitution.rs",
+      "LTermInner::Cons(head, tail) => LTerm::cons(self.walk_star(head), self.walk_star(tail)),",
+      "LTermInner::Cons(head, tail) => LTerm::cons(self.walk_star(head), tail.clone()),",
+      {"C03": "walk_star|variant=Cons"}),
+    M("c03-shared-any", ["C03"], "src/state/substitution.rs",
+      "                let mut c = self.clone();\n                c.extend(walkv.clone(), LTerm::any());\n                c",
+      "                let mut c = self.clone();\n                c.extend(walkv.clone(), walkv.clone());\n                c",
+      {"C03": "fresh-any"}),
+    M("c03-reify-compound-skip", ["C03"], "src/state/substitution.rs",
+      "        for child in compound.children() {\n            match child.as_term() {\n                Some(v) => smap = smap.reify(v),",
+      "        for child in compound.children().skip(1) {\n            match child.as_term() {\n                Some(v) => smap = smap.reify(v),",
+      {"C03": "reify_compound"}),
+    M("c03-constraints-not-anyvars", ["C03"], "src/lresult.rs",
+      "        let anyvars = self.0.anyvars();\n        self.1.relevant(&anyvars)",
+      "        let anyvars = vec![self.0.clone()];\n        self.1.relevant(&anyvars)",
+      {"C03": "lresult"}),
+    M("c03-hash-skips-tail", ["C03"], "src/lterm.rs",
+      "                head.hash(state);\n                tail.hash(state);",
+      "                head.hash(state);",
+      {"C03": "hash|variant=Cons"}),
 ]
